@@ -102,8 +102,7 @@ TCarEnd ==
   /\ IF owner[e.k] = None \/ car[e.k] = "dead" THEN UNCHANGED vars
      ELSE /\ car' = [car EXCEPT ![e.k] = "dead"]
           /\ cur' = [s \in Sessions |-> IF cur[s] = e.k THEN 0 ELSE cur[s]]
-          /\ dead' = [dead EXCEPT ![owner[e.k]] = IF car[e.k] = "popped" THEN (@ \/ AsIs_D15) ELSE @]
-          /\ UNCHANGED <<owner, broken, att, segVars, acc, nf>>
+          /\ UNCHANGED <<owner, broken, att, dead, segVars, acc, nf>>
   /\ UNCHANGED <<wr, rd, flags>>
 
 TAttach ==
@@ -167,9 +166,4 @@ Accepted ==
   \/ Print(<<"UNEXPLAINED", TLCGet(1), IF TLCGet(1) <= Len(TraceLog) THEN TraceLog[TLCGet(1)] ELSE "eof">>, FALSE)
 
 NoFlags == flags = {}
-(* The redial layer of a session that still has work never closes for good
-   (in the traces of the core rig a failed dial is retried by the harness; in
-   those of the system rig this is D15). *)
-NeverDeadT == \A s \in Sessions : ~dead[s]
-(* OneCurrent on observed values: the current carrier is one the session popped. *)
 =============================================================================
